@@ -1,6 +1,6 @@
 ------------------------------ MODULE Trace_Layout ------------------------------
 (* R.traces[k] = [id, lay : Seq(Seq(Ph)) (placeholders per layout), mas : Seq(Seq(Ph)) (per layout: its master's placeholders),
-                  nmas : Seq(Ph) (notes master), steps : Seq([a, out, t, notes : Seq(Ph)])]                                  *)
+                  nmas : Seq(Ph) (notes master), steps : Seq([a, out, t, notes : Seq(Ph), lay : Seq(Ph) (the layout a.l as read at this step)])]                                  *)
 EXTENDS Layout, Json, IOUtils, SequencesExt
 VARIABLE dummy
 R == JsonDeserialize(IOEnv.TRACE_FILE)
@@ -8,7 +8,7 @@ T == R.traces
 StepBad(tr, k) ==
   LET s == tr.steps[k-1].t  a == tr.steps[k].a  t == tr.steps[k].t IN
   (IF tr.steps[k].out # "ok" THEN {"OperationSucceeds"}
-   ELSE CASE a.op = "addSlide" -> Failing(s, a, t, tr.lay[a.l], tr.mas[a.l])
+   ELSE CASE a.op = "addSlide" -> Failing(s, a, t, tr.steps[k].lay, tr.mas[a.l])    \* the layout as it is at this addition
           [] a.op = "setGeom"  -> (IF OverrideOK(a, t) THEN {} ELSE {"OverrideReported"})
                                   \cup (IF \A k2 \in DOMAIN s.slides : k2 # a.k => t.slides[k2] = s.slides[k2] THEN {} ELSE {"OthersUntouched"})
           [] a.op = "notes"    -> IF NotesOK(tr.steps[k].notes, tr.nmas) THEN {} ELSE {"NotesMirror"}
